@@ -30,7 +30,12 @@ func (p *Parser) parseAlterStatement() (*ast.AlterStatement, error) {
 
 // parseAlterTableStatement parses ALTER TABLE statements
 func (p *Parser) parseAlterTableStatement(stmt *ast.AlterStatement) (*ast.AlterStatement, error) {
-	stmt.Name = p.parseIdentAsString()
+	// the table may be schema-qualified (ALTER TABLE s.t ...)
+	if name, err := p.parseQualifiedName(); err == nil {
+		stmt.Name = name
+	} else {
+		stmt.Name = p.parseIdentAsString()
+	}
 	op := &ast.AlterTableOperation{}
 
 	switch {
